@@ -293,6 +293,58 @@ theorem stages_identity (f : List α → List α) (hf : ∀ x, f x = x) (k : Nat
   | zero => rfl
   | succ m ih => simp [stages, hf, ih]
 
+/-! ### a consumer that stops early, EPIPE -/
+
+/-- `write` fails with EPIPE exactly when the pipe has no reader, and then nothing is buffered -/
+theorem write_epipe_iff (c : Cfg) (p : Fifo α) (buf : List α) :
+    ((p.write c buf).1 = .epipe ↔ p.readers = 0) ∧ (p.readers = 0 → p.write c buf = (.epipe, p)) := by
+  unfold Fifo.write
+  refine ⟨⟨fun h => ?_, fun h => by simp [h]⟩, fun h => by simp [h]⟩
+  by_cases hr : p.readers = 0
+  · exact hr
+  · simp only [hr, if_false] at h
+    split at h
+    · split at h <;> simp at h
+    · simp at h
+
+/-- ☆ Conservation survives a reader that closes early (`Reach2` = `Reach` plus the step "the
+    running reader closes its end"): still `received ++ buffered ++ unsent = payload`, so what the
+    reader has taken is a prefix of the payload — nothing lost before the point where it stopped,
+    nothing duplicated or reordered — and the capacity bound holds. -/
+theorem pipe_conservation_early_close (c : Cfg) (payload : List α) (s : Sys α) (hr : Reach2 c payload s) :
+    s.received ++ s.pipe.content ++ s.unsent = payload ∧ s.pipe.content.length ≤ c.pipeSize ∧
+      ∃ rest, payload = s.received ++ rest := by
+  have h := cons_reach2 hr
+  exact ⟨h.1, h.2, s.pipe.content ++ s.unsent, by rw [← h.1, List.append_assoc]⟩
+
+/-- ☆ … and a writer that still has data finds out: with no reader left its next `write` is EPIPE,
+    `write_all` gives up (`failed`), and no further byte enters the pipe. -/
+theorem early_close_epipe (c : Cfg) (s : Sys α) (k : Nat) (_hk : 1 ≤ k)
+    (hr : s.pipe.readers = 0) (hw : s.wpc = .run) (hu : s.unsent ≠ []) :
+    ∃ s', s.stepW c k = some s' ∧ s'.wpc = .failed ∧ s'.unsent = s.unsent ∧
+      s'.pipe.content = s.pipe.content ∧ s'.received = s.received := by
+  have he : s.unsent.isEmpty = false := by cases hs : s.unsent <;> simp_all
+  have hwr := (write_epipe_iff c s.pipe (s.unsent.take k)).2 hr
+  refine ⟨{ s with pipe := s.pipe.closeFd false true, wpc := .failed }, ?_, rfl, rfl, ?_, rfl⟩
+  · unfold Sys.stepW
+    rw [hw]
+    simp only [he, Bool.false_eq_true, if_false, hwr]
+  · simp [Fifo.closeFd]
+
+/-! ### the `read` built-in -/
+
+/-- `IFS= read -r` on a line of ASCII bytes: the value is the line, byte for byte, the newline is
+    consumed and exactly the rest of the input is left for the next reader.
+    (`_partial`: proved for lines of ASCII bytes.  The full statement — the same for every line
+    `utf8 cs` with `'\n' ∉ cs` — needs the byte-range facts of `String.utf8EncodeChar`, which are not
+    proved here; multi-byte lines are compared in the run (`hd` cases with `rd=read`).) -/
+theorem read_raw_line_partial (line rest : List UInt8) (h : ∀ b ∈ line, b < 0x80 ∧ b ≠ 10) :
+    readBuiltin true (line ++ 10 :: rest) = (if line.contains 0 then 3 else 0, if line.contains 0 then [] else line, rest) := by
+  unfold readBuiltin
+  rw [readLine_raw_ascii line rest [] h _ (by simp only [List.length_append, List.length_cons]; omega)]
+  simp only [List.nil_append]
+  split <;> simp_all
+
 /-! ### descriptor choreography: the child really is connected to the pipe, whatever is open -/
 
 /-- ★ Command substitution, child side (`subshell_body`): for every descriptor table of the shell —
